@@ -5,6 +5,7 @@ package parser
 // independent reading of the source text.
 
 import (
+	"github.com/DDP-Projekt/Kompilierer/src/ast"
 	"github.com/DDP-Projekt/Kompilierer/src/ddperror"
 	"github.com/DDP-Projekt/Kompilierer/src/scanner"
 	"github.com/DDP-Projekt/Kompilierer/src/token"
@@ -247,3 +248,51 @@ func VerifC19IntMax3()     { verifC19Int("9223372036854775", 3) }
 func VerifC19IntOver()     { verifC19Int("1844674407370955", 4) }
 func VerifC19IntLong()     { verifC19Int("12345678901234567", 2) }
 func VerifC19IntLongZero() { verifC19Int("000000000000000000", 3) }
+
+// verifC19Float: a Kommazahl literal of i integer and f fraction digits (all symbolic) is read
+// by the parser as the correctly rounded value of the decimal fraction.
+func verifC19Float(i, f int) {
+	ds := rt.Bytes("d", i+f)
+	for _, d := range ds {
+		rt.Assume(rt.And(d >= '0', d <= '9'))
+	}
+	src := append(append(append([]byte{}, ds[:i]...), ','), ds[i:]...)
+	src = append(src, '.')
+	var d vDiag
+	mod, err := Parse(Options{FileName: "x.ddp", Source: append([]byte("Die Kommazahl k ist "), src...), ErrorHandler: d.handler})
+	if err != nil || mod == nil || mod.Ast == nil {
+		rt.Assert(false, "the frontend returns a module")
+		return
+	}
+	rt.Assert(d.errors == 0, "a Kommazahl literal with digits on both sides of the comma is accepted")
+	var lit *ast.FloatLit
+	for _, st := range mod.Ast.Statements {
+		if ds, ok := st.(*ast.DeclStmt); ok {
+			if vd, ok := ds.Decl.(*ast.VarDecl); ok {
+				lit, _ = vd.InitVal.(*ast.FloatLit)
+			}
+		}
+	}
+	rt.Assert(lit != nil, "the initial value is the Kommazahl literal")
+	if lit == nil {
+		return
+	}
+	// reference: n / 10^f with n the digit string read as an integer (exact in a double for at
+	// most 15 digits; the division is correctly rounded). The literal's value is concrete on this
+	// path; the digits are symbolic, so the comparison with n is decided by the solver.
+	n, p := 0, 1.0
+	for _, b := range ds {
+		n = n*10 + int(b-'0')
+	}
+	for k := 0; k < f; k++ {
+		p *= 10
+	}
+	m := int(lit.Value*p + 0.5)
+	rt.Assert(m == n, "a Kommazahl literal evaluates to its decimal value")
+	rt.Assert(lit.Value == float64(m)/p, "a Kommazahl literal is the correctly rounded decimal fraction")
+}
+
+func VerifC19Float11() { verifC19Float(1, 1) }
+func VerifC19Float12() { verifC19Float(1, 2) }
+func VerifC19Float21() { verifC19Float(2, 1) }
+func VerifC19Float22() { verifC19Float(2, 2) }
